@@ -6902,6 +6902,17 @@ func (c *linkerContext) generateIsolatedHash(chunk *chunkInfo, channel chan []by
 	hashWriteLengthPrefixed(hash, chunk.outputSourceMap.Mappings)
 	hashWriteLengthPrefixed(hash, chunk.outputSourceMap.Suffix)
 
+	// Also include the external legal comments in the hash. The legal comments
+	// file is named after the chunk (the chunk name plus ".LEGAL.txt"), so the
+	// hash must change if the legal comments change even if the chunk data
+	// doesn't change. Otherwise the output path for the legal comments file
+	// wouldn't change and the file wouldn't end up being updated. This is only
+	// done when there are external legal comments so that the hashes of all
+	// other chunks stay the same.
+	if len(chunk.externalLegalComments) > 0 {
+		hashWriteLengthPrefixed(hash, chunk.externalLegalComments)
+	}
+
 	// Store the hash so far. All other chunks that import this chunk will mix
 	// this hash into their final hash to ensure that the import path changes
 	// if this chunk (or any dependencies of this chunk) is changed.
